@@ -850,7 +850,7 @@ ENTRIES = [Match(), Variants(), FileRT(), Cover(), Reject()]
 
 CERT_PRE = ("From Coq Require Import Reals Lra.\nFrom Interval Require Import Tactic.\n"
             "From EsVerif.C12 Require Import SepModel SepCert.\nOpen Scope R_scope.\n"
-            "Ltac side := first [ left; lra | right; split; [ lra | unfold havs, hav, rad; interval with (i_prec 160) ] ].\n"
+            "Ltac side := first [ left; lra | right; split; [ lra | unfold havs, hav, rad; interval with (i_prec 120) ] ].\n"
             "Ltac cert := apply sep_between_intro; side.\n")
 AUDIT_TOL = Fraction(1, 10 ** 12)
 REPORT_TOL = Fraction(1, 10 ** 9)
@@ -906,7 +906,7 @@ def certify(ctx, replay=None):
             ctx.violation("sepcert: a 180-degree match raised %s" % type(e).__name__,
                           {"kind": "failing-input", "entry": "sepcert", "case": c, "error": str(e)}, found_input=True)
             continue
-        pairs = c.get("pairs") or cert_pairs(r, c, D, 12 if c.get("family", "").startswith("corpus") or replay is not None else 5)
+        pairs = c.get("pairs") or cert_pairs(r, c, D, 12 if c.get("family", "").startswith("corpus") or replay is not None else ctx.n(3, 5))
         for (i, j) in pairs:
             d = dcode[i][j]
             Dq = Fraction(D[i][j])
